@@ -1,19 +1,21 @@
 #!/bin/bash
 # usage: tools/w3confirm.sh <ID> <suffix> <check ids...>
-# Confirms a sub-agent's seeded change left applied in /tmp/w3/<ID> (demo fails with it, passes
+# Confirms a sub-agent's seeded change left applied in /tmp/${WAVE:-w3}/<ID> (demo fails with it, passes
 # without it, whole suite passes with it), stores it as /verif/seeded/<ID><suffix>/ and runs the given
-# checks against it in an isolated copy (tools/seediso.sh).  Log: /tmp/w3/<ID>.confirm.log
+# checks against it in an isolated copy (tools/seediso.sh).  Log: /tmp/${WAVE:-w3}/<ID>.confirm.log
 id=$1; sfx=$2; shift 2
-wt=/tmp/w3/$id; out=/tmp/w3/$id-out
+wt=/tmp/${WAVE:-w3}/$id; out=/tmp/${WAVE:-w3}/$id-out
 export CARGO_NET_OFFLINE=true
 cmd=$(jq -r .demo_cmd $out/meta.json)
 cd $wt || exit 2
-git diff > /tmp/w3/$id.patch.check
+git diff > /tmp/${WAVE:-w3}/$id.patch.check
 if ! diff -q <(git diff -- crates) $out/patch.diff >/dev/null; then echo "NOTE: patch.diff differs from worktree diff (using worktree diff)"; git diff -- crates > $out/patch.diff; fi
 echo "--- demo WITH change:"; (eval "$cmd" 2>&1 | grep -E "^test result|panicked at|^error" | head -6)
-git stash -q -- crates
+# (not `git stash`: the stash is shared by all worktrees of a repository)
+git diff -- crates > /tmp/${WAVE:-w3}/$id.cur.diff
+git apply -R /tmp/${WAVE:-w3}/$id.cur.diff
 echo "--- demo WITHOUT change:"; (eval "$cmd" 2>&1 | grep -E "^test result|panicked at|^error" | head -6)
-git stash pop -q
+git apply /tmp/${WAVE:-w3}/$id.cur.diff
 echo "--- suite WITH change:"
 CARGO_TARGET_DIR=$wt/target cargo nextest run -j 6 --build-jobs 6 --workspace --no-fail-fast --offline 2>&1 | grep -E "Summary|FAIL " | head -5
 d=/verif/seeded/$id$sfx
